@@ -138,6 +138,7 @@ func (s *vfSim) runMonitors(mc vfMonCfg) *vfMonOut {
 		strict    bool // the covering SACK must report tsn
 		t         time.Duration
 		tsn       uint32
+		why       string
 	}
 	var obls [2][]obl
 	var closedAt [2]time.Duration
@@ -362,7 +363,7 @@ func (s *vfSim) runMonitors(mc vfMonCfg) *vfMonOut {
 							if e.T > o.due {
 								key := "ack/late"
 								if o.immediate {
-									key = "ack/not-immediate"
+									key = "ack/not-immediate/" + o.why
 								}
 								res.violate("C19", key, "side %d: DATA (tsn %d) delivered at %v was first covered by a SACK written at %v (allowed until %v)", side, o.tsn, o.t, e.T, o.due)
 							}
@@ -402,6 +403,7 @@ func (s *vfSim) runMonitors(mc vfMonCfg) *vfMonOut {
 			nData := 0
 			var firstTSN uint32
 			gapOrDup := false
+			immWhy := ""
 			for ci := range p.Chunks {
 				c := &p.Chunks[ci]
 				switch c.Type {
@@ -420,6 +422,7 @@ func (s *vfSim) runMonitors(mc vfMonCfg) *vfMonOut {
 					nData++
 					if sh.got[c.TSN] {
 						gapOrDup = true
+						immWhy = "duplicate"
 						res.seen("dup-delivered")
 					}
 					sh.got[c.TSN] = true
@@ -435,6 +438,9 @@ func (s *vfSim) runMonitors(mc vfMonCfg) *vfMonOut {
 						}
 						if sna32GT(sh.rmax, sh.rcum) {
 							gapOrDup = true
+							if immWhy == "" {
+								immWhy = "gap"
+							}
 							res.seen("gap-delivered")
 						}
 					}
@@ -471,7 +477,11 @@ func (s *vfSim) runMonitors(mc vfMonCfg) *vfMonOut {
 					due = e.T + mc.ackSlack
 				}
 				strict := e.Snap.Credit > 0 && firstTSN-e.Snap.PeerLastTSN < minTSNOffset && !mc.looseAck
-				obls[side] = append(obls[side], obl{due: due, seq: e.Seq, immediate: imm, strict: strict, t: e.T, tsn: firstTSN})
+				res.count("c19_ack_obligations", 1)
+				if imm {
+					res.count("c19_immediate_obligations", 1)
+				}
+				obls[side] = append(obls[side], obl{due: due, seq: e.Seq, immediate: imm, strict: strict, t: e.T, tsn: firstTSN, why: immWhy})
 			}
 		}
 	}
@@ -483,7 +493,7 @@ func (s *vfSim) runMonitors(mc vfMonCfg) *vfMonOut {
 			if o.due+time.Millisecond < endT && (closedAt[side] < 0 || closedAt[side] > o.due) && !s.sideClosedBefore(side, o.due) {
 				key := "ack/missing"
 				if o.immediate {
-					key = "ack/not-immediate"
+					key = "ack/not-immediate/" + o.why
 				}
 				res.violate("C19", key, "side %d: DATA (tsn %d) delivered at %v was never covered by a SACK (due %v, run ended %v)", side, o.tsn, o.t, o.due, endT)
 
